@@ -141,6 +141,7 @@ func c17(c *core.Check) {
 	c.Analysed["index_len_sites"] = n
 	c.Min("index-len", 4)
 	c17formats(c)
+	c17ampEscaped(c)
 	// (3) siblings
 	if len(loops) == 2 {
 		a := rules.NormalizeLoop(prog.Fset, pk.TypesInfo, loops[0])
